@@ -1,0 +1,25 @@
+//go:build verif
+
+// Contracts for package collector: the collector asks the index for every field a facet needs
+// (read by /verif/gocv; comment-only effect with the verif tag off).
+
+package collector
+
+// ---------------------------------------------------------------------------
+// C10: facet fields are visited for every match
+// ---------------------------------------------------------------------------
+
+// After SetFacetsBuilder every field required by the facets builder is among the fields whose doc
+// values are visited for every match (and the fields needed before are still there, in order).
+//@ func TopNCollector.SetFacetsBuilder
+//@   props C10
+//@   mode int
+//@   requires hc != nil && facetsBuilder != nil
+//@   modifies hc.facetsBuilder, hc.neededFields, hc.neededFields[*]
+//@   ensures hc.facetsBuilder == facetsBuilder
+//@   ensures len(hc.neededFields) >= old(len(hc.neededFields)) && forall(j, 0, old(len(hc.neededFields)), hc.neededFields[j] == old(hc.neededFields[j]))
+//@   ensures forall(k, 0, len(facetsBuilder.fields), exists(j, 0, len(hc.neededFields), hc.neededFields[j] == facetsBuilder.fields[k]))
+//@   loop 0: invariant fieldsRequiredForFaceting == facetsBuilder.fields && hc.facetsBuilder == facetsBuilder && (base(hc.neededFields) == old(base(hc.neededFields)) || fresh(hc.neededFields))
+//@   loop 0: invariant len(hc.neededFields) >= old(len(hc.neededFields)) && forall(j, 0, old(len(hc.neededFields)), hc.neededFields[j] == old(hc.neededFields[j]))
+//@   loop 0: invariant forall(k, 0, iter, exists(j, 0, len(hc.neededFields), hc.neededFields[j] == fieldsRequiredForFaceting[k]))
+//@   loop 1: invariant implies(found, exists(j, 0, len(hc.neededFields), hc.neededFields[j] == field)) && implies(!found, forall(j, 0, iter, hc.neededFields[j] != field))
